@@ -37,14 +37,16 @@ ALT_REPO = os.environ.get("VERIF_REPO")
 if ALT_REPO:
     ALT_REPO = os.path.abspath(ALT_REPO)
     tag = hashlib.sha1(ALT_REPO.encode()).hexdigest()[:8]
-    alt = os.path.join(BUILD, "alt-" + tag)
+    alt = os.path.join(BUILD, "alt-" + tag + "-%d" % os.getpid())
     shutil.rmtree(alt, ignore_errors=True)
     shutil.copytree(HARNESS, alt, ignore=shutil.ignore_patterns("testdata"))
     gm = open(os.path.join(alt, "go.mod")).read().replace("=> /repo", "=> " + ALT_REPO)
     open(os.path.join(alt, "go.mod"), "w").write(gm)
     HARNESS = alt
-    BUILD = os.path.join(BUILD, "altbin-" + tag)
+    BUILD = os.path.join(BUILD, "altbin-" + tag + "-%d" % os.getpid())
     EVID = os.path.join(BUILD, "evidence")
+    import atexit
+    atexit.register(lambda: (shutil.rmtree(alt, ignore_errors=True), shutil.rmtree(BUILD, ignore_errors=True)))
 
 
 def goenv():
